@@ -26,19 +26,19 @@ func (w *world) honestStream(from, top uint64, md int) []elem {
 }
 
 func (w *world) honest() *peerSpec {
-	return &peerSpec{reach: true, kind: "honest", honest: true,
+	return &peerSpec{reach: true, kind: "honest", honest: true, mayStall: true,
 		gen: func(from uint64) []elem { return w.honestStream(from, chainLen, mdSame) }}
 }
 
 // honest peer of an older version: no metadata on its packets
 func (w *world) honestNoMD() *peerSpec {
-	return &peerSpec{reach: true, kind: "honest-nomd", honest: true,
+	return &peerSpec{reach: true, kind: "honest-nomd", honest: true, mayStall: true,
 		gen: func(from uint64) []elem { return w.honestStream(from, chainLen, mdNone) }}
 }
 
 // an honest peer that is itself behind: it only has the chain up to round top
 func (w *world) behind(top uint64) *peerSpec {
-	return &peerSpec{reach: true, kind: fmt.Sprintf("behind(%d)", top),
+	return &peerSpec{reach: true, kind: fmt.Sprintf("behind(%d)", top), mayStall: true,
 		gen: func(from uint64) []elem { return w.honestStream(from, top, mdSame) }}
 }
 
@@ -53,7 +53,7 @@ func (w *world) cut(n int, end elemKind) *peerSpec {
 	if end == eStall {
 		name = "stall"
 	}
-	return &peerSpec{reach: true, kind: fmt.Sprintf("%s(%d)", name, n),
+	return &peerSpec{reach: true, kind: fmt.Sprintf("%s(%d)", name, n), mayStall: end == eStall,
 		gen: func(from uint64) []elem {
 			var es []elem
 			for r := from; r <= chainLen && len(es) < n; r++ {
@@ -69,7 +69,7 @@ var lieKinds = []string{"badsig", "foreignkey", "label+1", "label-1", "skip", "r
 // liar: the honest stream with the packet at position pos replaced by a lie of the given kind;
 // afterwards it goes on honestly (tail) and finally closes or stalls.
 func (w *world) liar(kind string, pos int, end elemKind) *peerSpec {
-	return &peerSpec{reach: true, kind: fmt.Sprintf("lie:%s@%d", kind, pos),
+	return &peerSpec{reach: true, kind: fmt.Sprintf("lie:%s@%d", kind, pos), mayStall: end == eStall,
 		gen: func(from uint64) []elem {
 			var es []elem
 			i := 0
@@ -168,14 +168,17 @@ func (c *scase) label() string {
 		s += "]"
 	}
 	for _, j := range c.jobs {
-		s += fmt.Sprintf(" job%d[", j.round)
-		for i, p := range j.attempts[0] {
-			if i > 0 {
-				s += " "
+		s += fmt.Sprintf(" job%d", j.round)
+		for _, a := range j.attempts {
+			s += "["
+			for i, p := range a {
+				if i > 0 {
+					s += " "
+				}
+				s += p.kind
 			}
-			s += p.kind
+			s += "]"
 		}
-		s += "]"
 	}
 	if c.witness != "" {
 		s += " witness=" + c.witness
@@ -284,6 +287,19 @@ func (g *gen) build(tier string) {
 				jobs: []job{{round: 2, attempts: [2][]*peerSpec{{w.honest()}, {w.honest()}}},
 					{round: 4, attempts: [2][]*peerSpec{{w.cut(0, eClose), w.honest()}, {w.honest()}}}},
 				witness: "repair-existing-round"})
+		}
+		// every peer fails the first attempt of a repair (transient), the retry reaches an honest one
+		for _, hd := range []uint64{8, chainLen} {
+			for _, bk := range []string{bkMem, bkBoltU} {
+				g.add(&scase{kind: "correct", w: w, bk: bk, sk: skAppend, head: hd,
+					plants: []plant{{3, "badsig"}, {7, "missing"}},
+					jobs: []job{{round: 3, attempts: [2][]*peerSpec{{unreachableSpec(), w.cut(0, eClose)}, {w.cut(0, eClose), w.honest()}}},
+						{round: 7, attempts: [2][]*peerSpec{{w.liar("badsig", 0, eClose), unreachableSpec()}, {w.honest(), unreachableSpec()}}}},
+					witness: "repair-after-transient-failure"})
+			}
+			g.add(&scase{kind: "resync", w: w, bk: bkMem, sk: skAppend, head: hd, from: 4, to: 4,
+				plants:   []plant{{4, "badsig"}},
+				attempts: [][]*peerSpec{{unreachableSpec(), w.cut(0, eClose)}, {w.cut(1, eClose), w.honest()}}, witness: "repair-after-transient-failure"})
 		}
 		// F14: re-sync bypasses the scheme store (observation)
 		g.add(&scase{kind: "resync", w: w, bk: bkBoltU, sk: skAppend, head: 6, from: 3, to: 3,
@@ -436,11 +452,13 @@ func (g *gen) build(tier string) {
 			}
 		}
 		c := &scase{kind: "correct", w: w, bk: g.pickBk(w), sk: skAppend, head: head, plants: pl, descr: "random"}
-		honestOnly := g.rng.Intn(3) == 0
+		mode := g.rng.Intn(4)
 		for _, p := range pl {
 			j := job{round: p.round}
-			if honestOnly {
+			if mode == 0 {
 				j.attempts = [2][]*peerSpec{{w.cut(g.rng.Intn(2), eClose), w.honest()}, {w.honest()}}
+			} else if mode == 1 { // transient: the whole first attempt fails, the retry finds an honest peer
+				j.attempts = [2][]*peerSpec{{g.randPeerNoStall(w), g.randPeerNoStall(w)}, {g.randPeerNoStall(w), w.honest()}}
 			} else {
 				j.attempts = [2][]*peerSpec{g.randPeers(w, 3), g.randPeers(w, 2)}
 			}
